@@ -163,6 +163,7 @@ fn main() {
                 Some("C05") => props::c05::deepruns_main(tier, seed, out),
                 Some("C08") => props::c08::deepruns_main(tier, seed, out),
                 Some("C09") => props::c09::deepruns_main(tier, seed, out),
+                Some("C16") => props::c16::deepruns_main(tier, seed, out),
                 Some("C15") => props::c15::deepruns_main(tier, seed, out),
                 _ => props::c01::deepruns_main(tier, seed, out),
             }
